@@ -73,7 +73,7 @@ def rs_ty(prog, t, lt_for_structs="a"):
     if k == "cb":
         args = ", ".join(rs_ty(prog, a, lt_for_structs) for a in t[1])
         ret = "" if t[2] == ("unit",) else " -> " + rs_ty(prog, t[2], lt_for_structs)
-        return "impl %s(%s)%s" % ("FnMut" if t[3] else "Fn", args, ret)
+        return "impl %s(%s)%s%s" % ("FnMut" if t[3] else "Fn", args, ret, " + 'static" if len(t) > 4 else "")
     if k == "tr":
         return "impl " + t[1]
     raise ValueError(t)
@@ -127,7 +127,10 @@ def value_expr(prog, t, v):
     if k == "obox":
         if v is None:
             return "None"
-        e = "Box::new(%s::vf_new(%d))" % (t[1], v["seed"])
+        if getattr(prog.find(t[1]), "holder", None):
+            e = "Box::new(%s::vf_hold(%d, Box::new(f)))" % (t[1], v["seed"])
+        else:
+            e = "Box::new(%s::vf_new(%d))" % (t[1], v["seed"])
         return "Some(%s)" % e if t[2] else e
     if k == "oref":
         # v: ("param", name) | ("self",) | None
@@ -370,7 +373,11 @@ def emit_method(prog, owner, m, bodies, indent="        "):
         pa = "".join(a + " " for a in getattr(m, "param_attrs", {}).get(pn, ()))
         ps.append("%s%s: %s" % (pa, rust_ident(pn), rs_ty(prog, pt, lt_for_structs=(m.lifetimes[0] if m.lifetimes else "_"))))
     ret = "" if m.ret == ("unit",) else " -> " + rs_ty(prog, m.ret, lt_for_structs=(m.lifetimes[0] if m.lifetimes else "_"))
-    out.append("%spub fn %s%s(%s)%s {\n" % (indent, m.name, gens, ", ".join(ps), ret))
+    sig = "(%s)%s" % (", ".join(ps), ret)
+    if getattr(m, "self_spelling", False) and not owner.lifetimes:
+        import re
+        sig = re.sub(r"\b%s\b" % re.escape(owner.name), "Self", sig)
+    out.append("%spub fn %s%s%s {\n" % (indent, m.name, gens, sig))
     if not bodies or m.script is None:
         if getattr(m, "raw_body", None):
             out.append(indent + "    " + m.raw_body + "\n")
@@ -470,6 +477,8 @@ def emit_typedef(prog, t, bodies, ind="    "):
         elif t.lifetimes:
             out.append("%spub struct %s%s { pub id: u32, pub seed: u32, pub touched: u32, pub ph: core::marker::PhantomData<(%s)> }\n" % (
                 ind, t.name, gens, ", ".join("&'%s ()" % l for l in lt_names) + ","))
+        elif getattr(t, "holder", None):
+            out.append("%spub struct %s { pub id: u32, pub seed: u32, pub touched: u32, pub held: %s }\n" % (ind, t.name, dyn_ty(prog, t.holder)))
         else:
             out.append("%spub struct %s { pub id: u32, pub seed: u32, pub touched: u32 }\n" % (ind, t.name))
     if t.methods:
@@ -480,6 +489,12 @@ def emit_typedef(prog, t, bodies, ind="    "):
             out.append(emit_method(prog, t, m, bodies, ind + "    "))
         out.append("%s}\n" % ind)
     return "".join(out)
+
+
+def dyn_ty(prog, cb):
+    args = ", ".join(rs_ty(prog, a) for a in cb[1])
+    ret = "" if cb[2] == ("unit",) else " -> " + rs_ty(prog, cb[2])
+    return "Box<dyn %s(%s)%s>" % ("FnMut" if cb[3] else "Fn", args, ret)
 
 
 def canon_impls(prog):
@@ -500,6 +515,12 @@ def canon_impls(prog):
                 out.append("impl vf::Canon for %s%s { fn canon(&self) -> String { let mut s = String::from(\"{\"); %s s.push('}'); s } }\n" % (
                     path, gens, " ".join(parts)))
             else:
+                if getattr(t, "holder", None):
+                    # (the callback's types are named as inside the bridge module)
+                    out.append("mod vf_hold_%s { use crate::%s::*; use diplomat_runtime::*; use crate::vf; impl %s { pub fn vf_hold(seed: u32, held: %s) -> Self { let id = vf::next_id(); vf::log(format!(\"NEW %s#{}\", id)); Self { id, seed, touched: 0, held } } } }\n" % (
+                        t.name.lower(), mod.name, path, dyn_ty(prog, t.holder), t.name))
+                    out.append("impl Drop for %s { fn drop(&mut self) { vf::log(format!(\"DROP %s#{}\", self.id)); } }\n" % (path, t.name))
+                    continue
                 ph = ", ph: core::marker::PhantomData" if t.lifetimes else ""
                 out.append("impl%s %s%s { pub fn vf_new(seed: u32) -> Self { let id = vf::next_id(); vf::log(format!(\"NEW %s#{}\", id)); Self { id, seed, touched: 0%s } } }\n" % (
                     gens.replace("'_", "'a") if gens else "", path, gens.replace("'_", "'a") if gens else "", t.name, ph))
